@@ -35,7 +35,7 @@ RAW_RX = {
 
 def budget(tier):
     if tier == "thorough":
-        return {"cases": 4000, "deadline_s": 900, "case_timeout_s": 240, "floors": {"submissions": 12000, "start_events_checked": 6000, "never_started_checked": 800, "local_enqueues": 1500, "pool_spawns": 2500}}
+        return {"cases": 4000, "deadline_s": 900, "case_timeout_s": 240, "floors": {"submissions": 12000, "start_events_checked": 6000, "never_started_checked": 800, "local_enqueues": 1500, "pool_spawns": 1500}}
     return {"cases": 320, "deadline_s": 110, "case_timeout_s": 120, "floors": {"submissions": 800, "start_events_checked": 400, "never_started_checked": 40, "local_enqueues": 100, "pool_spawns": 100}}
 
 
@@ -187,6 +187,7 @@ def run_case(case):
             if not adversary_step(adv, sim, by, res, p_fail=0.2):
                 break
         jobs = sim.jobs()
+        res.obs("journal", [(r_["seq"], r_.get("cmd") or r_.get("event"), r_.get("job") or r_.get("id"), (r_.get("argv") or [""])[-1] if r_["kind"] == "cmd" else r_.get("exit")) for r_ in sim.journal() if r_["kind"] == "event" or r_.get("job")][:60])
         failed_pre = False
         for jid, pre in expected.items():
             j = jobs[jid]
